@@ -1060,7 +1060,7 @@ class Node:
         This is called internally by `_receive_message`, when necessary.
         """
         app_id = message.header.application_id
-        message_id = (f"{message.header.hop_by_hop_identifier}:"
+        message_id = (f"{conn.ident}:{message.header.hop_by_hop_identifier}:"
                       f"{message.header.end_to_end_identifier}")
 
         # rfc6733, 6.2.1: we are expected to just ignore unkown hop-by-hop
@@ -1539,6 +1539,10 @@ class Node:
         for message_id in list(self._origin_waiting_answer):
             if message_id.startswith(f"{conn.ident}:"):
                 self._origin_waiting_answer.pop(message_id, None)
+        # ... and requests sent over it, whose answers can no longer arrive
+        for message_id in list(self._app_waiting_answer):
+            if message_id.startswith(f"{conn.ident}:"):
+                self._app_waiting_answer.pop(message_id, None)
         peer = self._find_connection_peer(conn)
         if peer and (peer.connection is None or peer.connection is conn):
             # unset so that a new connection may be made later
@@ -1738,7 +1742,8 @@ class Node:
         if not message.header.hop_by_hop_identifier:
             message.header.hop_by_hop_identifier = conn.hop_by_hop_seq.next_sequence()
 
-        message_id = (f"{message.header.hop_by_hop_identifier}:"
+        # hop-by-hop identifiers are unique within the connection only
+        message_id = (f"{conn.ident}:{message.header.hop_by_hop_identifier}:"
                       f"{message.header.end_to_end_identifier}")
         self._app_waiting_answer[message_id] = app
 
